@@ -109,3 +109,25 @@ func init() {
 	registerFixture(fixtureCheck{Group: "loop", Pkg: "loop/bad", Run: loop, Want: []string{"loop/bad.Scale:", "loop/bad.Skip:", "loop/bad.Wander:"}})
 	registerFixture(fixtureCheck{Group: "loop", Pkg: "loop/good", Run: loop})
 }
+
+func init() {
+	w := func(c *Ctx, r *Result, key string) {
+		g, _ := c.fixGraph(key)
+		root := c.W.Fn(key + ".(*Expr).Eval")
+		if root == nil {
+			r.LoseAnchor("fixture %s has no (*Expr).Eval", key)
+			return
+		}
+		runW(c, g, r, "W", &wRootCfg{Name: "fixture root", Roots: []*ssa.Function{root}, LocalTypes: false,
+			RootParam: func(f *ssa.Function, i int) (wmask, bool) { return wNonFresh, true }})
+	}
+	registerFixture(fixtureCheck{Group: "w", Pkg: "w/bad", Run: w, Want: []string{"w/bad.eval:store#", "w/bad.eval:mapupdate#1", "w/bad.eval:mapupdate#2", "w/bad.helper:store#1"}})
+	registerFixture(fixtureCheck{Group: "w", Pkg: "w/good", Run: w})
+
+	lock := func(c *Ctx, r *Result, key string) {
+		g, fs := c.fixGraph(key)
+		runLOCKIn(c, r, "LOCK", g, fs, nil, true)
+	}
+	registerFixture(fixtureCheck{Group: "lock", Pkg: "lock/bad", Run: lock, Want: []string{"lock/bad.Register:registry-access#1", "lock/bad.Compile:registry-noescape#1", "lock/bad.Leak:mu-exit"}})
+	registerFixture(fixtureCheck{Group: "lock", Pkg: "lock/good", Run: lock})
+}
